@@ -81,6 +81,11 @@ func TestWorker(t *testing.T) {
 	if err != nil {
 		t.Fatal(err)
 	}
+	var names []string
+	for _, k := range kinds {
+		names = append(names, k.Name)
+	}
+	names = job.KindList(names)
 	switch job.Mode {
 	case "replay":
 		for i, raw := range job.Cases {
@@ -97,7 +102,7 @@ func TestWorker(t *testing.T) {
 	case "dump":
 		var want int
 		fmt.Sscan(job.Params["case"], &want)
-		c := &Case{Property: "C15", Engine: "simio", Kind: kinds[want%len(kinds)].Name}
+		c := &Case{Property: "C15", Engine: "simio", Kind: names[want%len(names)]}
 		src := choice.New(job.Seed, fmt.Sprint("c15-", want))
 		func() {
 			defer func() { recover() }()
@@ -115,7 +120,7 @@ func TestWorker(t *testing.T) {
 			if i%job.NShards != job.Shard {
 				continue
 			}
-			c := &Case{Property: "C15", Engine: "simio", Kind: kinds[i%len(kinds)].Name}
+			c := &Case{Property: "C15", Engine: "simio", Kind: names[i%len(names)]}
 			runCase(c, choice.New(job.Seed, fmt.Sprint("c15-", i)), out, i)
 		}
 		out.Finish("done", -1)
